@@ -334,15 +334,34 @@ structure New where
   files : List File
   deriving DecidableEq, Repr
 
-/-- validatePluginName, NewCLIPlugin, GetMetadata of the new plugin -/
+/-- `isPathWithin(PluginPath, <root>/<name>)`: the source is the plugin's own installation
+directory or lies in it (plugin names are single path elements, so "inside `<root>/<name>`"
+= "in the root directory called `<name>`") -/
+def insideOwn (op : Op) (name : Text) : Bool := !op.srcIn.isEmpty && op.srcIn == name
+
+/-- validatePluginName, the `isPathWithin` guard, [setExecutable], NewCLIPlugin, GetMetadata
+of the new plugin - in this order -/
 def newOf (op : Op) (loc : Option Located) : Option New :=
   match loc with
   | none => none
   | some l =>
     if !validName l.name then none
+    else if insideOwn op l.name then none
     else match metadata l.name l.exe with
       | none => none
       | some v => some ⟨l.name, v, copied op l⟩
+
+/-- the one write Install makes outside the plugin's own directory: once the name and the
+location of the source are accepted, the only, non-executable, candidate of a source
+DIRECTORY gets the owner-executable bit - before the metadata and version checks, so also
+when the installation is refused afterwards. Visible in the plugin root iff the source
+directory lies in it: `(directory of the root, file name)`. -/
+def srcChmod (op : Op) (loc : Option Located) : Option (Text × Text) :=
+  match loc with
+  | none => none
+  | some l =>
+    if op.kind == .install && validName l.name && !insideOwn op l.name && l.chmod && !op.srcIn.isEmpty
+    then some (op.srcIn, l.exe.name) else none
 
 /-! ## 5. install / uninstall -/
 
@@ -379,20 +398,29 @@ def versionRule (st : State) (overwrite : Bool) (nw : New) : Except Err (Option 
 def replace (st : State) (nw : New) : State :=
   putBy Plugin.name ⟨nw.name, nw.files⟩ (delBy Plugin.name nw.name st)
 
-/-- the source is the plugin's own installation directory or lies in it (plugin names are
-single path elements, so "inside `<root>/<name>`" = "in the root directory called `<name>`") -/
-def insideOwn (op : Op) (nw : New) : Bool := !op.srcIn.isEmpty && op.srcIn == nw.name
+/-- the file `fn` of the directory `X` of the root gets the owner-executable bit -/
+def chmodIn (X fn : Text) (st : State) : State :=
+  st.map fun p =>
+    if p.name == X then
+      { p with files := p.files.map fun f => if f.name == fn then { f with exec := true } else f }
+    else p
 
-def install (st : State) (op : Op) : Outcome × State :=
+/-- the root after the source chmod (unchanged unless the source directory lies in it) -/
+def touchSt (st : State) (op : Op) : State :=
+  match srcChmod op (locate op) with
+  | none => st
+  | some (X, fn) => chmodIn X fn st
+
+/-- Install on the root as it is after the source chmod -/
+def install1 (st : State) (op : Op) : Outcome × State :=
   match newOf op (locate op) with
   | none => (⟨.other, none, none⟩, st)
   | some nw =>
     match versionRule st op.overwrite nw with
     | .error e => (⟨e, none, none⟩, st)
-    | .ok ex =>
-      -- isPathWithin(PluginPath, <root>/<name>): the clean-up would remove the source
-      if insideOwn op nw then (⟨.other, none, none⟩, st)
-      else (⟨.ok, ex, some nw.version⟩, replace st nw)
+    | .ok ex => (⟨.ok, ex, some nw.version⟩, replace st nw)
+
+def install (st : State) (op : Op) : Outcome × State := install1 (touchSt st op) op
 
 def uninstall (st : State) (n : Text) : Outcome × State :=
   if !validName n then (⟨.other, none, none⟩, st)
@@ -490,6 +518,20 @@ def specLocate (op : Op) : Option Located :=
 
 def specNew (op : Op) : Option New := newOf op (specLocate op)
 
+def chmodInR (X fn : Text) (R : List PluginObs) : List PluginObs :=
+  R.map fun p =>
+    if p.name == X then
+      { p with files := p.files.map fun f => if f.name == fn then { f with exec := true } else f }
+    else p
+
+/-- the observed root before the operation, up to the source chmod (see `srcChmod`): the
+versions the plugins report are untouched, one mode bit of one file of the source
+directory may be set -/
+def touchR (R : List PluginObs) (op : Op) : List PluginObs :=
+  match srcChmod op (specLocate op) with
+  | none => R
+  | some (X, fn) => chmodInR X fn R
+
 def lookupR (R : List PluginObs) (n : Text) : Option PluginObs := findBy PluginObs.name n R
 
 /-- `CLIManager.Get` finds the plugin: its directory holds a file `notation-<name>` -/
@@ -515,11 +557,12 @@ def relTo (o : Ordering) (vn : Text) (p : Option PluginObs) : Bool :=
   | some ⟨_, _, some vo⟩ => compareVersions vn vo == some o
   | _ => false
 
-/-- one operation: the root before it, the operation, what was observed -/
+/-- one operation: the root before it (up to the source chmod, `touchR`), the operation,
+what was observed -/
 abbrev Triple := List PluginObs × Op × StepObs
 
 def triples : List Op → List StepObs → List PluginObs → List Triple
-  | op :: ops, s :: steps, R => (R, op, s) :: triples ops steps s.root
+  | op :: ops, s :: steps, R => (touchR R op, op, s) :: triples ops steps s.root
   | _, _, _ => []
 
 def isInstall (op : Op) : Bool := op.kind == .install
@@ -553,8 +596,7 @@ def cInstallWhenAllowed : Triple → Bool
     match specNew op with
     | none => s.err != .ok
     | some nw =>
-      if insideOwn op nw then s.err != .ok       -- a source inside the plugin's own directory is refused
-      else match existingR R nw.name with
+      match existingR R nw.name with
       | none => s.err == .ok
       | some p => !(op.overwrite || higher nw.version p) || s.err == .ok
 
